@@ -655,8 +655,9 @@ class UserFuncs:
     """SPY(x) returns x and counts; FLAKY(x) raises on its `fail_on`-th call
     (transient failure, F2); BOOM() always raises a Python error (F3)."""
 
-    def __init__(self, fail_on=None):
+    def __init__(self, fail_on=None, fail_exc='oserr'):
         self.fail_on = fail_on
+        self.fail_exc = fail_exc
         self.flaky_calls = 0
         self.spy_calls = 0
         self.fired = 0
@@ -705,6 +706,12 @@ class UserFuncs:
             uf.flaky_calls += 1
             if uf.fail_on is not None and uf.flaky_calls == uf.fail_on:
                 uf.fired += 1
+                if uf.fail_exc == 'keyerr':
+                    raise KeyError('simulated transient failure')
+                if uf.fail_exc == 'valerr':
+                    raise ValueError('simulated transient failure')
+                if uf.fail_exc == 'notimpl':
+                    raise NotImplementedError('simulated transient failure')
                 raise OSError(errno.EAGAIN, 'simulated transient failure')
             return x
 
